@@ -790,6 +790,10 @@ raise ValueError."""
                 value = str(symbol.const_int % 2 ** 16)
             elif unaliased == ast.TYPE_UINT8:
                 value = str(symbol.const_int % 2 ** 8)
+            elif unaliased in (ast.TYPE_UINT, ast.TYPE_UNICHAR):
+                value = str(symbol.const_int % 2 ** 32)
+            elif unaliased == ast.TYPE_USHORT:
+                value = str(symbol.const_int % 2 ** 16)
             else:
                 value = str(symbol.const_int)
         elif symbol.const_boolean is not None:
